@@ -54,6 +54,8 @@ pub mod subroutine;
 pub mod models;
 pub mod algorithms;
 pub(crate) mod compiler;
+#[cfg(feature = "verif-hooks")]
+pub mod verif_hooks;
 
 // Re-export important types for easier imports
 pub use crate::components::measurement::{MeasurementBasis, MeasurementResult};
